@@ -16,7 +16,7 @@ RULE = ("scenario = (items preloaded in the memcached model, client configuratio
         "END, VALUE lines, a lone CR at the end, empty values; multi-key replies; value sizes 0,1,4090..4100,8190..8194,"
         "100000; store/delete/incr/touch/version/flush lines; set_many/delete_many multi-line replies; stats (also "
         "cachedump ITEM lines and valueless STATs); raw_command with end tokens CRLF, END CRLF, LF CR LF END CR LF and "
-        "a token whose prefix occurs inside the body, pipelines of several commands through one raw_command (replies that start with STORED / DELETED / OK / TOUCHED / a number and run on to the last command's end token), and ERROR / CLIENT_ERROR / SERVER_ERROR lines sent in answer to raw_command with each of these end tokens (also one that ends the error line itself); plus Hypothesis-drawn values/keys; and the same calls after a history of 1-24 earlier fetches (empty, small, large values) on the same client object. Segmentations: every subset "
+        "a token whose prefix occurs inside the body, pipelines of several commands through one raw_command (replies that start with STORED / DELETED / OK / TOUCHED / a number and run on to the last command's end token), and ERROR / CLIENT_ERROR / SERVER_ERROR lines sent in answer to raw_command with each of these end tokens (also one that ends the error line itself); plus Hypothesis-drawn values/keys; and the same calls after a history of 1-24 earlier fetches (empty, small, large values) on the same client object, also with the connection closed / quit / dropped after an error in between, so that the reply under test arrives on the client's second or third connection. Segmentations: every subset "
         "of cut positions for streams <= 14 bytes (thorough 16); all 1-, 2- (and thorough 3-) cut segmentations for "
         "streams <= 64 bytes; all-single-byte; for long streams cuts at 4096k-1/4096k/4096k+1, in the last 8 bytes, "
         "and exact 4096-byte pieces. Oracle (metamorphic): result (value incl. type, or exception class) equals the "
@@ -310,6 +310,11 @@ def history_cases(tier, seed):
         hists.append([{"op": "get", "key": "s"}] * (n - 1) + [{"op": "get", "key": "e"}])
         hists.append([{"op": "get", "key": "big"}] + [{"op": "gets", "key": "s"}] * n)
         hists.append([{"op": "get_many", "keys": ["s", "e", "nokey"]}] * n)
+    # the connection the reply arrives on is not the client's first one: it was closed, quit, or dropped after an error
+    for ev in ({"op": "close"}, {"op": "quit"}, {"op": "disconnect_all"}, {"op": "incr", "key": "s", "delta": 1}, {"op": "get", "key": "bad key"}):
+        hists.append([{"op": "get", "key": "s"}, ev])
+        hists.append([{"op": "get_many", "keys": ["s", "big"]}, ev, {"op": "get", "key": "e"}, ev])
+        hists.append([ev, {"op": "gets", "key": "big"}, ev])
     targets = [S({"op": "get", "key": "k"}, store, expect=b"tail\r"), S({"op": "get", "key": "e"}, store, expect=b""),
                S({"op": "gets_many", "keys": ["s", "e"]}, store, expect={"s": (b"xy", b"3"), "e": (b"", b"2")}),
                S({"op": "get", "key": "big"}, store, expect=b"0123456789\r\n" * 400)]
